@@ -29,6 +29,7 @@ type Config struct {
 	Params      map[string]int64
 	MapPerm     bool
 	AppendSlack int
+	FPReal      bool
 	Verbose     bool
 	MaxViol     int
 	SolverLog   string
@@ -267,6 +268,7 @@ type Interp struct {
 	initBudget int
 	pending    []pendingChk
 	flushing   bool
+	rb         map[int]float64
 }
 
 type ufApp struct {
@@ -351,6 +353,7 @@ func (in *Interp) runPath(prefix []decision) {
 	in.pcSet = map[int]bool{}
 	in.pending = nil
 	in.flushing = false
+	in.rb = nil
 	in.nowSeq = 0
 	in.lastNowSec, in.lastNowNsec = nil, nil
 	in.sol.Push()
@@ -536,7 +539,30 @@ func (in *Interp) learn(c *Term) {
 			}
 		}
 	case OSlt, OSle:
-		// only when both sides are known non-negative (norm() rewrites those), nothing to learn otherwise
+		a, b := c.Args[0], c.Args[1]
+		w := a.Sort.W
+		half := uint64(1) << uint(w-1)
+		d := uint64(0)
+		if c.Op == OSlt {
+			d = 1
+		}
+		// 0 <= x  (or c <= x with c >= 0): x is non-negative
+		if a.IsConst() && a.Val < half {
+			_, bh := in.ival(b)
+			if bh >= half {
+				bh = half - 1
+			}
+			if a.Val+d <= bh {
+				in.setRange(b, a.Val+d, bh)
+			}
+		}
+		// x <= c with c >= 0 and x known non-negative
+		if b.IsConst() && b.Val < half {
+			al, ah := in.ival(a)
+			if ah < half && b.Val >= d && al <= b.Val-d {
+				in.setRange(a, al, b.Val-d)
+			}
+		}
 	}
 }
 
